@@ -220,6 +220,25 @@ impl<A: Debug> Debug for Sim<A> {
 
 impl<A> Drop for Sim<A> {
     fn drop(&mut self) {
+        // A task that is still pending may own handles to this simulation
+        // (`globals()`, module handles). Such a task keeps the module tree
+        // alive, which in turn keeps the runtime of the task alive: nothing
+        // of the simulation would ever be released. So end all tasks first.
+        // The tree is not locked while they are dropped, since destructors
+        // of task state may look at the simulation.
+        #[cfg(feature = "async")]
+        {
+            let modules = self
+                .modules
+                .lock()
+                .map(|tree| tree.iter().cloned().collect::<Vec<_>>())
+                .unwrap_or_default();
+            for module in modules {
+                let rt = module.ctx.async_ext.write().take_runtime();
+                drop(rt);
+            }
+        }
+
         // SAFETY: Remove ctxs, since the next use of a `Sim` may occur on
         // a different thread
         unsafe {
